@@ -97,7 +97,9 @@ CHECKS["C01"] = {
     "level_note": _WORLD_NOTE + "Interleavings are explored at storage/LN-call granularity (each MintDB method is one SQLite statement/transaction on a single connection).",
     "assumptions": ["interleaving granularity = one storage or Lightning call", "Lightning backend modelled by harness/lnmodel"],
     "units": [
-        rapid("seq", "^TestSeq$", 320, 6400, qs=8, ts=16),
+        rapid("seq", "^TestSeq$", 320, 6400, qs=6, ts=16),
+        rapid("sched", "^TestSched$", 480, 20000, qs=6, ts=16),
+        plain("schedenum", "^TestSchedEnum$", qs=16, ts=16, ttimeout=3300),
     ],
 }
 
